@@ -132,10 +132,52 @@ func NodeOf(v any) *N {
 			return &x.N
 		case *W:
 			v = x.Inner
+		case WF:
+			v = x(1)
 		default:
 			return nil
 		}
 	}
+}
+
+// WF is a func-shaped wrapper (a closure that implements the interface, in the manner of
+// http.HandlerFunc): every closure made from one literal has the same code pointer, only what it
+// captured tells two of them apart.
+type WF func(op int) any
+
+var wfSerial int
+
+// NewWF makes a fresh func-shaped wrapper of inner.
+func NewWF(inner Iface, tag string) WF {
+	wfSerial++
+	serial := wfSerial
+	return func(op int) any {
+		switch op {
+		case 0:
+			return inner.ID()
+		case 1:
+			return inner
+		case 2:
+			return serial
+		}
+		return tag
+	}
+}
+
+func (f WF) ID() string  { return f(0).(string) }
+func (f WF) Serial() int { return f(2).(int) }
+func (f WF) Tag() string { return f(3).(string) }
+func (f WF) AfterPropertiesSet() error {
+	if x, ok := f(1).(interface{ AfterPropertiesSet() error }); ok {
+		return x.AfterPropertiesSet()
+	}
+	return nil
+}
+func (f WF) Init() error {
+	if x, ok := f(1).(interface{ Init() error }); ok {
+		return x.Init()
+	}
+	return nil
 }
 
 // W wraps a component (what a substituting post-processor returns). It forwards the lifecycle
@@ -241,7 +283,8 @@ type Proc struct {
 	processors.DefaultInstantiationAwareComponentPostProcessor
 	Nm    string
 	Plan  map[string]int
-	cache map[string]*W
+	cache map[string]Iface
+	fn    bool // substitutes are func-shaped (WF) instead of struct pointers (*W)
 	rt    *RT
 	Snap  map[string]string // slot snapshot per node at before-initialization
 }
@@ -258,7 +301,10 @@ func (p *Proc) mk(c any, name, tag string, share bool) any {
 			return x
 		}
 	}
-	x := &W{Inner: n, Tag: tag}
+	var x Iface = &W{Inner: n, Tag: tag}
+	if p.fn {
+		x = NewWF(n, tag)
+	}
 	p.cache[name] = x
 	return x
 }
@@ -395,8 +441,9 @@ type GraphProg struct {
 	Reg           []int   `json:"reg,omitempty"`  // registration order (default 0..n-1)
 	Base          []int   `json:"base,omitempty"` // base iteration order of the user names
 	Mode          int     `json:"mode,omitempty"`
-	SwallowLookup bool    `json:"lookup_errors_ignored,omitempty"` // Init ignores the error of its look-ups; every Init logs its successful completion
-	SliceOpt      bool    `json:"optional_slices,omitempty"`       // the slice points are declared required=false
+	WrapFunc      bool    `json:"func_shaped_substitutes,omitempty"` // the substituting processor answers closures (WF) instead of struct pointers
+	SwallowLookup bool    `json:"lookup_errors_ignored,omitempty"`   // Init ignores the error of its look-ups; every Init logs its successful completion
+	SliceOpt      bool    `json:"optional_slices,omitempty"`         // the slice points are declared required=false
 	Faults        bool    `json:"faults,omitempty"`
 	ErrShape      int     `json:"err_shape,omitempty"`
 	Kinds         string  `json:"kinds,omitempty"`
@@ -761,7 +808,7 @@ func RunGraph(p *GraphProg, ch *envx.Chooser) *GraphObs {
 		nproc = 1
 	}
 	for k := 0; k < nproc; k++ {
-		pr := &Proc{Nm: fmt.Sprintf("zz-proc%d", k), Plan: map[string]int{}, cache: map[string]*W{}, rt: rt, Snap: map[string]string{}}
+		pr := &Proc{Nm: fmt.Sprintf("zz-proc%d", k), Plan: map[string]int{}, cache: map[string]Iface{}, fn: p.WrapFunc, rt: rt, Snap: map[string]string{}}
 		if k == 0 {
 			for i, w := range p.Wrap {
 				pr.Plan[Name(i, p.N)] = w
